@@ -110,17 +110,30 @@ func report(cfg CheckCfg, tier string, results []HarnessResult, known []KnownFin
 				continue
 			}
 			path := filepath.Join(verifDir, "replays", fmt.Sprintf("%s-%s-%d.json", id, r.Name, n))
-			out := map[string]interface{}{"property": id, "harness": r.Name, "package": r.Pkg, "kind": f.Kind, "site": f.Where, "model": f.Model, "trace": f.Trace}
-			b, _ := json.MarshalIndent(out, "", " ")
-			os.WriteFile(path, b, 0o644)
-			rep := replayFinding(cfg, r, f, path)
+			// candidates: the first counterexample and those of other paths, least lenient first
+			cands := append([]Finding{f}, f.Alts...)
+			sort.SliceStable(cands, func(i, j int) bool { return cands[i].Lenient < cands[j].Lenient })
+			rep := ""
+			for ci, c := range cands {
+				out := map[string]interface{}{"property": id, "harness": r.Name, "package": r.Pkg, "kind": c.Kind, "site": c.Where, "model": c.Model, "trace": c.Trace}
+				b, _ := json.MarshalIndent(out, "", " ")
+				os.WriteFile(path, b, 0o644)
+				rep = replayFinding(cfg, r, c, path)
+				if rep == "reproduced" || rep == "unreplayed" {
+					f = c
+					break
+				}
+				if ci+1 < len(cands) {
+					fmt.Fprintf(os.Stderr, "replay of %s @ %s: candidate %d of %d did not reproduce (%s), trying the next\n", c.Kind, c.Where, ci+1, len(cands), rep)
+				}
+			}
 			switch {
 			case rep == "reproduced" || rep == "unreplayed":
 				violations++
 				lines = append(lines, fmt.Sprintf("VIOLATION property=%s replay=%s", id, path))
 				lines = append(lines, fmt.Sprintf("  harness=%s kind=%s site=%q replay=%s", r.Name, f.Kind, f.Where, rep))
 			default:
-				faults = append(faults, fmt.Sprintf("%s: counterexample for %s @ %s did not reproduce natively (%s): model %s", r.Name, f.Kind, f.Where, rep, path))
+				faults = append(faults, fmt.Sprintf("%s: counterexample for %s @ %s did not reproduce natively (%s, %d candidates tried): model %s", r.Name, f.Kind, f.Where, rep, len(cands), path))
 			}
 			samples = append(samples, map[string]interface{}{"harness": r.Name, "violation": f.Kind + " @ " + f.Where, "model": f.Model})
 		}
